@@ -30,17 +30,33 @@ Record stream := {
   st_term : option N;              (* terminal status once the response stream ended *)
   st_reqopen : bool }.             (* the client has not closed the request side *)            (* terminal status once the response stream ended *)
 
+(* A consumer waiting on a subscription's `Notify`: the pull loop of an open
+   stream, or a Pull without return_immediately (with its 300 s limit). *)
+Inductive consumer :=
+| CStream (sid : N)
+| CPull (opid : N) (max : N) (limit : N).
+
+(* Streams, the waiting consumers in parking order (oldest first, as tokio's
+   Notify wakes them), and the results of background calls that completed. *)
+Record cons := {
+  c_streams : list stream;
+  c_waiters : list (N * consumer);      (* subscription uid, consumer *)
+  c_done : list (N * (N + list lease)) }. (* op id -> error code or messages *)
+
 Record server := {
   sv_now : N;
   sv_topics : list topic;  sv_tnext : N;
   sv_subs : list sub;      sv_snext : N;
   sv_reg : list (name * str);
   sv_ptnext : N;
-  sv_streams : list stream }.
+  sv_cons : cons }.
+
+Definition sv_streams (sv : server) : list stream := c_streams (sv_cons sv).
 
 Definition init_server : server :=
   {| sv_now := 0; sv_topics := []; sv_tnext := 1; sv_subs := []; sv_snext := 1;
-     sv_reg := []; sv_ptnext := 0; sv_streams := [] |}.
+     sv_reg := []; sv_ptnext := 0;
+     sv_cons := {| c_streams := []; c_waiters := []; c_done := [] |} |}.
 
 (* ---------- lookups ---------- *)
 Fixpoint find_topic (n : name) (ts : list topic) : option topic :=
@@ -76,15 +92,19 @@ Definition del_topic (u : N) (ts : list topic) : list topic :=
 Definition with_subs (sv : server) (ss : list sub) : server :=
   {| sv_now := sv_now sv; sv_topics := sv_topics sv; sv_tnext := sv_tnext sv; sv_subs := ss;
      sv_snext := sv_snext sv; sv_reg := sv_reg sv; sv_ptnext := sv_ptnext sv;
-     sv_streams := sv_streams sv |}.
-Definition with_streams (sv : server) (st : list stream) : server :=
+     sv_cons := sv_cons sv |}.
+Definition with_cons (sv : server) (c : cons) : server :=
   {| sv_now := sv_now sv; sv_topics := sv_topics sv; sv_tnext := sv_tnext sv; sv_subs := sv_subs sv;
      sv_snext := sv_snext sv; sv_reg := sv_reg sv; sv_ptnext := sv_ptnext sv;
-     sv_streams := st |}.
+     sv_cons := c |}.
+Definition set_streams (c : cons) (st : list stream) : cons :=
+  {| c_streams := st; c_waiters := c_waiters c; c_done := c_done c |}.
+Definition with_streams (sv : server) (st : list stream) : server :=
+  with_cons sv (set_streams (sv_cons sv) st).
 Definition with_topics (sv : server) (ts : list topic) : server :=
   {| sv_now := sv_now sv; sv_topics := ts; sv_tnext := sv_tnext sv; sv_subs := sv_subs sv;
      sv_snext := sv_snext sv; sv_reg := sv_reg sv; sv_ptnext := sv_ptnext sv;
-     sv_streams := sv_streams sv |}.
+     sv_cons := sv_cons sv |}.
 
 (* ---------- requests and responses ---------- *)
 Definition raw_msg := (str * list (str * str))%type.
@@ -109,7 +129,9 @@ Inductive req :=
 | RStreamOpen (sid : N) (sub : str) (maxmsgs maxbytes : Z)
 | RStreamSend (sid : N) (sub : str) (maxmsgs maxbytes : Z) (acks modids : list str) (secs : list Z)
 | RStreamClose (sid : N)
-| RStreamRead (sid : N).
+| RStreamRead (sid : N)
+| RPullBg (opid : N) (sub : str) (max : Z)     (* a Pull without return_immediately, left running *)
+| RJoin (opid : N).                            (* the result of a background Pull, if it completed *)
 
 (* A subscription resource as returned by Create/Get/List. *)
 Record subres := { r_name : str; r_topic : str; r_ackdl : N; r_push : option str }.
@@ -126,6 +148,8 @@ Inductive resp :=
 | PStats (outstanding backlog : N) (topic : str)
 | PReg (l : list (str * str))
 | PStream (resps : list (list lease)) (term : option N)
+| PPending
+| PJoined (r : N + list lease)   (* outcome of a background Pull: error code or messages *)
 | PNone.
 
 (* ---------- internal work until quiescence ---------- *)
@@ -138,31 +162,16 @@ Definition timer_fired (now : N) (s : sub) : bool :=
   | [] => false
   end.
 
-(* A stream loop pulls until the backlog is empty; every pull hands out at
-   least one message, so the backlog length is enough fuel. *)
-Fixpoint drain (fuel : nat) (max now : N) (s : sub) : sub * list (list lease) :=
-  match fuel with
-  | O => (s, [])
-  | S f =>
-      match s_backlog s with
-      | [] => (s, [])
-      | _ :: _ =>
-          let (s1, ls) := sub_pull max now s in
-          let (s2, r) := drain f max now s1 in
-          (s2, ls :: r)
-      end
-  end.
-
-(* Streams open on subscription [u]; only the first one found pulls (several
-   consumers on one subscription race; the concurrent model covers that). *)
-Fixpoint first_open_stream (u : N) (sts : list stream) : option stream :=
-  match sts with
+(* The oldest consumer waiting on subscription [u], and the queue without it. *)
+Fixpoint first_waiter (u : N) (ws : list (N * consumer)) : option (consumer * list (N * consumer)) :=
+  match ws with
   | [] => None
-  | st :: sts' =>
-      match st_term st with
-      | None => if N.eqb u (st_sub st) then Some st else first_open_stream u sts'
-      | Some _ => first_open_stream u sts'
-      end
+  | (v, c) :: ws' =>
+      if N.eqb u v then Some (c, ws')
+      else match first_waiter u ws' with
+           | Some (c', r) => Some (c', (v, c) :: r)
+           | None => None
+           end
   end.
 
 Definition stream_push (sid : N) (rs : list (list lease)) (sts : list stream) : list stream :=
@@ -182,35 +191,76 @@ Definition stream_terminate (p : stream -> bool) (code : N) (sts : list stream) 
                  | Some _ => st
                  end) sts.
 
-(* One subscription settles: expire if its actor ran (touched) or its timer
-   fired; then its stream (if any) drains; a drain is itself an actor turn. *)
-Definition settle_sub (now : N) (touched : bool) (sts : list stream) (s : sub)
-  : sub * list stream :=
-  let s1 := if touched || timer_fired now s then sub_expire now s else s in
-  match first_open_stream (s_uid s1) sts with
-  | None => (s1, sts)
-  | Some st =>
-      match s_backlog s1 with
-      | [] => (s1, sts)
+Definition find_stream (sid : N) (sts : list stream) : option stream :=
+  find (fun st => N.eqb sid (st_id st)) sts.
+
+(* While the backlog is non-empty and somebody waits: notify_one wakes the
+   oldest waiter, which pulls; a stream loop yields its batch and parks again
+   (at the back), a blocked Pull returns.  Every round hands out at least one
+   message or discards a dangling waiter, so the fuel suffices. *)
+Fixpoint serve (fuel : nat) (now : N) (s : sub) (c : cons) : sub * cons :=
+  match fuel with
+  | O => (s, c)
+  | S f =>
+      match s_backlog s with
+      | [] => (s, c)
       | _ :: _ =>
-          let (s2, rs) := drain (length (s_backlog s1)) (st_max st) now s1 in
-          (sub_expire now s2, stream_push (st_id st) rs sts)
+          match first_waiter (s_uid s) (c_waiters c) with
+          | None => (s, c)
+          | Some (CStream sid, rest) =>
+              match find_stream sid (c_streams c) with
+              | Some st =>
+                  serve f now (fst (sub_pull (st_max st) now s))
+                        {| c_streams := stream_push sid [snd (sub_pull (st_max st) now s)] (c_streams c);
+                           c_waiters := rest ++ [(s_uid s, CStream sid)];
+                           c_done := c_done c |}
+              | None => serve f now s {| c_streams := c_streams c; c_waiters := rest; c_done := c_done c |}
+              end
+          | Some (CPull id max limit, rest) =>
+              serve f now (fst (sub_pull max now s))
+                    {| c_streams := c_streams c; c_waiters := rest;
+                       c_done := c_done c ++ [(id, inr (snd (sub_pull max now s)))] |}
+          end
       end
   end.
 
-Fixpoint settle_subs (now : N) (touched : N -> bool) (ss : list sub) (sts : list stream)
-  : list sub * list stream :=
+(* One subscription settles.  Its actor runs if a request touched it, if its
+   expiry timer fired, or if a consumer is waiting while the backlog is not
+   empty (a stream that has just been opened); when it runs, every overdue lease
+   is requeued (take_expired), and then the waiting consumers are served. *)
+Definition has_waiter (u : N) (c : cons) : bool :=
+  match first_waiter u (c_waiters c) with Some _ => true | None => false end.
+
+Definition actor_runs (now : N) (touched : bool) (c : cons) (s : sub) : bool :=
+  touched || timer_fired now s || (negb (is_nil (s_backlog s)) && has_waiter (s_uid s) c).
+
+Definition settle_sub (now : N) (touched : bool) (c : cons) (s : sub) : sub * cons :=
+  let s1 := if actor_runs now touched c s then sub_expire now s else s in
+  serve (length (s_backlog s1) + length (c_waiters c)) now s1 c.
+
+Fixpoint settle_subs (now : N) (touched : N -> bool) (ss : list sub) (c : cons) : list sub * cons :=
   match ss with
-  | [] => ([], sts)
+  | [] => ([], c)
   | s :: ss' =>
-      let (s', sts1) := settle_sub now (touched (s_uid s)) sts s in
-      let (r, sts2) := settle_subs now touched ss' sts1 in
-      (s' :: r, sts2)
+      let (s', c1) := settle_sub now (touched (s_uid s)) c s in
+      let (r, c2) := settle_subs now touched ss' c1 in
+      (s' :: r, c2)
   end.
 
+(* Blocked Pulls whose 300 s limit has passed answer with no messages. *)
+Definition expire_pulls (now : N) (c : cons) : cons :=
+  {| c_streams := c_streams c;
+     c_waiters := filter (fun w => match snd w with
+                                   | CPull _ _ limit => N.ltb now limit
+                                   | CStream _ => true end) (c_waiters c);
+     c_done := c_done c ++
+               flat_map (fun w => match snd w with
+                                  | CPull id _ limit => if N.ltb now limit then [] else [(id, inr [])]
+                                  | CStream _ => [] end) (c_waiters c) |}.
+
 Definition settle (touched : N -> bool) (sv : server) : server :=
-  let (ss, sts) := settle_subs (sv_now sv) touched (sv_subs sv) (sv_streams sv) in
-  with_streams (with_subs sv ss) sts.
+  let (ss, c) := settle_subs (sv_now sv) touched (sv_subs sv) (sv_cons sv) in
+  with_cons (with_subs sv ss) (expire_pulls (sv_now sv) c).
 
 (* ---------- handlers ---------- *)
 Definition topic_display (sv : server) (s : sub) : str :=
@@ -294,6 +344,40 @@ Definition set_topic_next (t : topic) (n : N) : topic :=
 
 Definition attached (n : name) (l : list (name * N)) : bool := amem name_eqb n l.
 
+(* DeleteSubscription: every stream open on it ends with NOT_FOUND, every Pull
+   blocked on it returns an error status (NOT_FOUND from the deletion branch or
+   FAILED_PRECONDITION from a closed mailbox, whichever the runtime picks:
+   recorded as NOT_FOUND, compared as "an error"). *)
+Definition release_consumers (u : N) (c : cons) : cons :=
+  {| c_streams := stream_terminate (fun st => N.eqb (st_sub st) u) NOT_FOUND (c_streams c);
+     c_waiters := filter (fun w => negb (N.eqb (fst w) u)) (c_waiters c);
+     c_done := c_done c ++
+               flat_map (fun w => if N.eqb (fst w) u
+                                  then match snd w with
+                                       | CPull id _ _ => [(id, inl NOT_FOUND)]
+                                       | CStream _ => [] end
+                                  else []) (c_waiters c) |}.
+
+(* A stream that ended no longer waits. *)
+Definition unpark_stream (sid : N) (c : cons) : cons :=
+  {| c_streams := c_streams c;
+     c_waiters := filter (fun w => match snd w with
+                                   | CStream x => negb (N.eqb x sid) | CPull _ _ _ => true end) (c_waiters c);
+     c_done := c_done c |}.
+
+Definition park (u : N) (k : consumer) (c : cons) : cons :=
+  {| c_streams := c_streams c; c_waiters := c_waiters c ++ [(u, k)]; c_done := c_done c |}.
+
+Definition pull_limit_ns : N := 300 * ns_per_s.
+
+(* post_messages notifies even when the batch is empty: the oldest waiter wakes,
+   finds nothing and parks again, now behind the others. *)
+Definition rotate_waiter (c : cons) (u : N) : cons :=
+  match first_waiter u (c_waiters c) with
+  | Some (k, rest) => {| c_streams := c_streams c; c_waiters := rest ++ [(u, k)]; c_done := c_done c |}
+  | None => c
+  end.
+
 (* The unsettled effect of one request: new state, response, touched actors. *)
 Definition handle (sv : server) (r : req) : server * resp * (N -> bool) :=
   let now := sv_now sv in
@@ -309,7 +393,7 @@ Definition handle (sv : server) (r : req) : server * resp * (N -> bool) :=
               let t := {| t_name := tn; t_uid := uid; t_subs := []; t_next_msg := 0 |} in
               ({| sv_now := now; sv_topics := sv_topics sv ++ [t]; sv_tnext := uid;
                   sv_subs := sv_subs sv; sv_snext := sv_snext sv; sv_reg := sv_reg sv;
-                  sv_ptnext := sv_ptnext sv; sv_streams := sv_streams sv |},
+                  sv_ptnext := sv_ptnext sv; sv_cons := sv_cons sv |},
                PTopic (show_topic_name tn), no_touch)
           end
       end
@@ -390,7 +474,7 @@ Definition handle (sv : server) (r : req) : server * resp * (N -> bool) :=
                            (sv_topics sv) in
               let sv' := {| sv_now := now; sv_topics := ts'; sv_tnext := sv_tnext sv;
                             sv_subs := sv_subs sv ++ [s]; sv_snext := uid; sv_reg := reg';
-                            sv_ptnext := sv_ptnext sv; sv_streams := sv_streams sv |} in
+                            sv_ptnext := sv_ptnext sv; sv_cons := sv_cons sv |} in
               (sv', PSub (sub_resource sv' s), touch1 uid)
           end
       end end end end
@@ -416,8 +500,7 @@ Definition handle (sv : server) (r : req) : server * resp * (N -> bool) :=
               ({| sv_now := now; sv_topics := ts'; sv_tnext := sv_tnext sv;
                   sv_subs := del_sub (s_uid s) (sv_subs sv); sv_snext := sv_snext sv;
                   sv_reg := aremove name_eqb sn (sv_reg sv); sv_ptnext := sv_ptnext sv;
-                  sv_streams := stream_terminate (fun st => N.eqb (st_sub st) (s_uid s))
-                                  NOT_FOUND (sv_streams sv) |},
+                  sv_cons := release_consumers (s_uid s) (sv_cons sv) |},
                POk, no_touch)
           end
       end
@@ -452,7 +535,8 @@ Definition handle (sv : server) (r : req) : server * resp * (N -> bool) :=
                                  (sv_topics sv);
                   sv_tnext := sv_tnext sv; sv_subs := ss'; sv_snext := sv_snext sv;
                   sv_reg := sv_reg sv; sv_ptnext := sv_ptnext sv + 1;
-                  sv_streams := sv_streams sv |},
+                  sv_cons := if is_nil raws then fold_left rotate_waiter targets (sv_cons sv)
+                             else sv_cons sv |},
                PIds (map m_id ms), touch_list targets)
           end
       end
@@ -499,7 +583,7 @@ Definition handle (sv : server) (r : req) : server * resp * (N -> bool) :=
   | RAdvance d =>
       ({| sv_now := now + d; sv_topics := sv_topics sv; sv_tnext := sv_tnext sv;
           sv_subs := sv_subs sv; sv_snext := sv_snext sv; sv_reg := sv_reg sv;
-          sv_ptnext := sv_ptnext sv; sv_streams := sv_streams sv |}, PNone, no_touch)
+          sv_ptnext := sv_ptnext sv; sv_cons := sv_cons sv |}, PNone, no_touch)
   | RStats n =>
       match parse_sub_name n with
       | None => (sv, PErr INVALID_ARGUMENT, no_touch)
@@ -530,7 +614,8 @@ Definition handle (sv : server) (r : req) : server * resp * (N -> bool) :=
               | Some mx =>
                   let st := {| st_id := sid; st_sub := s_uid s; st_subname := sn; st_max := mx;
                                st_pending := []; st_term := None; st_reqopen := true |} in
-                  (with_streams sv (sv_streams sv ++ [st]), POk, touch1 (s_uid s))
+                  (with_cons sv (park (s_uid s) (CStream sid) (set_streams (sv_cons sv) (sv_streams sv ++ [st]))),
+                   POk, touch1 (s_uid s))
               end
           end
       end
@@ -543,7 +628,9 @@ Definition handle (sv : server) (r : req) : server * resp * (N -> bool) :=
           | None =>
               if negb (st_reqopen st) then (sv, PNone, no_touch) else
               let fail code :=
-                (with_streams sv (stream_terminate (fun x => N.eqb sid (st_id x)) code (sv_streams sv)),
+                (with_cons sv (unpark_stream sid
+                                 (set_streams (sv_cons sv)
+                                    (stream_terminate (fun x => N.eqb sid (st_id x)) code (sv_streams sv)))),
                  PNone, no_touch) in
               if negb (is_nil n) then fail INVALID_ARGUMENT
               else if Z.ltb 0 maxbytes then fail INVALID_ARGUMENT
@@ -581,6 +668,27 @@ Definition handle (sv : server) (r : req) : server * resp * (N -> bool) :=
                                     st_reqopen := st_reqopen x |}
                             else x) (sv_streams sv)),
            PStream (st_pending st) (st_term st), no_touch)
+      end
+  | RPullBg opid n max =>
+      let finish r := (with_cons sv {| c_streams := sv_streams sv; c_waiters := c_waiters (sv_cons sv);
+                                       c_done := c_done (sv_cons sv) ++ [(opid, r)] |}, PNone, no_touch) in
+      match parse_sub_name n with
+      | None => finish (inl INVALID_ARGUMENT)
+      | Some sn =>
+          match find_sub sn (sv_subs sv) with
+          | None => finish (inl NOT_FOUND)
+          | Some s =>
+              (with_cons sv (park (s_uid s) (CPull opid (as_u16 max) (now + pull_limit_ns)) (sv_cons sv)),
+               PNone, touch1 (s_uid s))
+          end
+      end
+  | RJoin opid =>
+      match alookup N.eqb opid (c_done (sv_cons sv)) with
+      | None => (sv, PPending, no_touch)
+      | Some r =>
+          (with_cons sv {| c_streams := sv_streams sv; c_waiters := c_waiters (sv_cons sv);
+                           c_done := aremove N.eqb opid (c_done (sv_cons sv)) |},
+           PJoined r, no_touch)
       end
   end.
 
